@@ -45,6 +45,8 @@ Methods ==
     [name |-> "TouchThing",  cs |-> FALSE, ss |-> FALSE, void |-> FALSE, dep |-> FALSE,
        flat |-> FlatOf(<< <<"name", "tags", "count">>, <<"name", "count">>, <<"vals">> >>), auto |-> {}],
     [name |-> "PlainThing",  cs |-> FALSE, ss |-> FALSE, void |-> FALSE, dep |-> FALSE, flat |-> <<>>, auto |-> {}],
+    \* replies with the API's own message named Empty (it has fields): void means google.protobuf.Empty, nothing else
+    [name |-> "NullThing",   cs |-> FALSE, ss |-> FALSE, void |-> FALSE, dep |-> FALSE, flat |-> <<>>, auto |-> {}],
     \* RPC names that need disambiguation in the surface (Python keyword; a name the transport uses itself): the wire path keeps them
     [name |-> "Import",      cs |-> FALSE, ss |-> FALSE, void |-> FALSE, dep |-> FALSE, flat |-> <<>>, auto |-> {}],
     [name |-> "CreateChannel", cs |-> FALSE, ss |-> TRUE, void |-> FALSE, dep |-> FALSE, flat |-> <<>>, auto |-> {}],
